@@ -175,7 +175,10 @@ class ObservableResource(Resource, interfaces.ObservableResource):
         should be sent to observers."""
 
         for o in self._observations:
-            o.trigger(response)
+            # Each observer needs a message of its own: token, remote, message
+            # ID and type are filled in on the message object when it is sent
+            # (and consulted again on retransmission).
+            o.trigger(response.copy() if response is not None else None)
 
     def get_link_description(self):
         link = super(ObservableResource, self).get_link_description()
